@@ -100,6 +100,18 @@ def baseline_callers() -> T.Dict[str, T.Dict[str, T.List[str]]]:
     return _BASELINE_CALLERS
 
 
+_BASELINE_ALIAS: T.Optional[T.Dict[str, T.List[str]]] = None
+
+
+def baseline_ref_alias() -> T.Dict[str, T.List[str]]:
+    """Functions of the pinned tree that bind a local to one of several references (sa/baseline_ref_alias.json)."""
+    global _BASELINE_ALIAS
+    if _BASELINE_ALIAS is None:
+        with open(os.path.join(os.path.dirname(os.path.abspath(__file__)), "baseline_ref_alias.json")) as fobj:
+            _BASELINE_ALIAS = json.load(fobj)
+    return _BASELINE_ALIAS
+
+
 _BASELINE_CONSTS: T.Optional[T.Dict[str, T.List[str]]] = None
 
 
@@ -1241,6 +1253,21 @@ def _is_ref(e: ast.AST) -> bool:
     return False
 
 
+def has_ref_alias(fd: ast.AST) -> bool:
+    """Does the function bind a local to one of several references (conditional expression, if/else, lookup table)?"""
+    for n in ast.walk(fd):
+        if isinstance(n, ast.Assign) and len(n.targets) == 1 and isinstance(n.targets[0], ast.Name):
+            if isinstance(n.value, ast.IfExp) and _is_ref(n.value.body) and _is_ref(n.value.orelse):
+                return True
+            if isinstance(n.value, ast.Dict) and n.value.keys and all(isinstance(k, ast.Constant) for k in n.value.keys) and all(_is_ref(v) for v in n.value.values):
+                return True
+        if isinstance(n, ast.If) and len(n.body) == 1 and len(n.orelse) == 1 and all(
+                isinstance(b_, ast.Assign) and len(b_.targets) == 1 and isinstance(b_.targets[0], ast.Name) and _is_ref(b_.value) for b_ in (n.body[0], n.orelse[0])) \
+                and n.body[0].targets[0].id == n.orelse[0].targets[0].id:
+            return True
+    return False
+
+
 def expand_table_dispatch(tree: ast.Module, unchanged: T.Optional[T.Set[int]] = None) -> int:
     """De-virtualise a local lookup table of references:
 
@@ -1428,7 +1455,9 @@ def normalise_program(trees: T.Dict[str, ast.Module]) -> T.Dict[str, int]:
         known = baseline().get(m)
         if known:
             same = {id(fd) for q, fd in _qualnames(t).items() if known.get(q) and known[q] == body_hash(fd)}
-            n_disp += expand_table_dispatch(t, same)
+            # a function that already chose between references on the pinned tree: the rules know that form
+            same_disp = same | {id(fd) for q, fd in _qualnames(t).items() if q in baseline_ref_alias().get(m, [])}
+            n_disp += expand_table_dispatch(t, same_disp)
             n_unrolled += unroll_literal_loops(t, same)
     LAST_RUN["dispatch_expanded"] = n_disp
     LAST_RUN["literal_loops_unrolled"] = n_unrolled
